@@ -200,3 +200,15 @@ func MkStringMap(m map[string]string) Value {
 	}
 	return mv
 }
+
+// ConcreteOf returns the value the path condition forces for a 32/64-bit input term (its model value if the term
+// cannot take any other value), or -1.
+func (ex *Exec) ConcreteOf(t *Term) int64 {
+	v, _ := Eval(t, ex.model)
+	ex.flushPC()
+	verdict, _ := ex.solver.Check([]*Term{ex.tt.Not(ex.tt.Eq(t, ex.tt.BV(v, t.W)))}, nil, false)
+	if verdict != Unsat {
+		return -1
+	}
+	return sx(v, t.W)
+}
